@@ -55,6 +55,14 @@ structure Fc11Laws (P : Client → Prop) : Prop where
         (¬ (c.sendQuota = 0 ∧ 0 < c.maxSend) → P (decSend { c with inflight := c.inflight ++ [out] })) ∧
         (c.sendQuota = 0 → 0 < c.maxSend →
           P (flSet (decSend { c with inflight := c.inflight ++ [out] }) { out with expiry := -1 }).1)
+  /-- the release of a deferred message by `nextImmediate` -/
+  next : ∀ c : Client, ObjWF c → P c → ∀ m ∈ c.inflight, m.expiry < 0 → c.sendQuota > 0 →
+        P (decSend (flDelete c m.id).1)
+  /-- `processPublish`: the acknowledgement record of an accepted QoS 1/2 publish (under a free packet id, receive
+      quota available), and its removal once the PUBACK is written -/
+  ack : ∀ (c : Client) (a : Msg), (a.type = 4 ∨ a.type = 5) → 0 ≤ a.expiry → flGet c a.id = none →
+        c.recvQuota > 0 → P c →
+        P (flSet (decRecv c) a).1 ∧ (a.type = 4 → P (incRecv (flDelete (flSet (decRecv c) a).1 a.id).1))
 
 /-! ### the server-level relation -/
 
@@ -448,5 +456,497 @@ theorem detachA_fc (L : Fc11Laws P) (s : Server) (i : Nat) (withErr : Bool) : Fc
     rw [h3] at b
     exact a.trans b
   · exact (Fc11G.refl s).mod i (fun c => { c with will := {} }) (L.ext _ _ rfl rfl rfl rfl rfl)
+
+/-! ### session clean-up: the cleared object leaves the Clients map -/
+
+/-- `clearInflights`, `unsubscribeClient` and the removal of the object's own Clients-map key -/
+theorem fc11_clear_unreg (L : Fc11Laws P) (s : Server) (i : Nat) (cid : Str)
+    (hv : ∀ id k, (id, k) ∈ s.clients → (getObj s k).id = id) (hid : (getObj s i).id = cid) :
+    Fc11G P s { unsubscribeClient (clearInflights s i) i with
+      clients := assocDel (unsubscribeClient (clearInflights s i) i).clients cid } := by
+  have g3 : Good s (clearInflights s i) := clearInflights_good s i
+  have g4 : Good (clearInflights s i) (unsubscribeClient (clearInflights s i) i) := unsubscribeClient_good _ i
+  have u4 : Fc11G P (clearInflights s i) (unsubscribeClient (clearInflights s i) i) := unsubscribeClient_fc L _ i
+  have hsub : (unsubscribeClient (clearInflights s i) i).clients.Sublist s.clients := g4.clients.trans g3.clients
+  refine ⟨List.filter_sublist.trans hsub, ?_⟩
+  intro k hr x
+  obtain ⟨id, hm⟩ := hr
+  have hm' := (mem_assocDel_iff _ _ _).mp hm
+  have hm4 : (id, k) ∈ (unsubscribeClient (clearInflights s i) i).clients := hm'.1
+  have hms : (id, k) ∈ s.clients := hsub.subset hm4
+  have hki : k ≠ i := by
+    intro e
+    subst e
+    exact hm'.2 ((hv id k hms).symm.trans hid)
+  show P (getObj (unsubscribeClient (clearInflights s i) i) k)
+  refine u4.keep k ⟨id, hm4⟩ ?_
+  show P (getObj (clearInflights s i) k)
+  unfold clearInflights
+  show P (getObj (setObj s i _) k)
+  rw [getObj_setObj_ne s i k _ hki]
+  exact x
+
+theorem WF.clients_id {s : Server} (h : WF s) : ∀ id k, (id, k) ∈ s.clients → (getObj s k).id = id :=
+  fun id k hm => (h.clients_valid id k hm).2
+
+theorem detachB_fc (L : Fc11Laws P) (s : Server) (i : Nat) (hwf : WF s) : Fc11G P s (detachB s i) := by
+  unfold detachB
+  extract_lets +onlyGivenNames c expire s3 s4 s2
+  refine Fc11G.upd (s := s2) ?_ rfl rfl
+  show Fc11G P s (if (expire && !c.takenOver) = true then _ else s)
+  split
+  · exact fc11_clear_unreg L s i c.id hwf.clients_id rfl
+  · exact Fc11G.refl s
+
+theorem detach_fc (L : Fc11Laws P) (s : Server) (i : Nat) (withErr : Bool) (hwf : WF s) :
+    Fc11G P s (detach s i withErr).1 := by
+  unfold detach
+  split
+  rename_i s1 o1 heq
+  have hs1 : Fc11G P s s1 := by
+    have := detachA_fc L s i withErr
+    rw [heq] at this
+    exact this
+  have w1 : WF s1 := by
+    have := detachA_wf s i withErr hwf
+    rw [heq] at this
+    exact this
+  exact hs1.trans (detachB_fc L s1 i w1)
+
+theorem admitConnack_fc (L : Fc11Laws P) (s : Server) (i conn : Nat) (present : Bool) :
+    Fc11G P s (admitConnack s i conn present).1 := by
+  unfold admitConnack
+  extract_lets +onlyGivenNames cl
+  split
+  rename_i s' seiOut heq
+  show Fc11G P s s'
+  split at heq
+  · cases heq
+    exact (Fc11G.refl s).mod i _ (L.ext _ _ rfl rfl rfl rfl rfl)
+  · cases heq
+    exact Fc11G.refl s
+
+/-! ### housekeeping (all but the in-flight expiry) -/
+
+theorem tickClients_fc (L : Fc11Laws P) (s : Server) (dt : Int) (hwf : WF s) : Fc11G P s (tickClients s dt).1 := by
+  unfold tickClients
+  refine (foldl_inv_mem (fun (acc : Server × List Out) => Fc11G P s acc.1 ∧ Good s acc.1) _ _ _
+    ⟨Fc11G.refl s, Good.refl s⟩ ?_).1
+  intro acc e he h
+  extract_lets +onlyGivenNames c
+  split
+  · extract_lets +onlyGivenNames s1 s2
+    have w : WF acc.1 := hwf.of_good h.2
+    have hid : (getObj acc.1 e.2).id = e.1 := by
+      rw [h.2.ids]
+      exact (hwf.clients_valid e.1 e.2 he).2
+    refine ⟨h.1.trans (fc11_clear_unreg L acc.1 e.2 e.1 w.clients_id hid), ?_⟩
+    exact ((h.2.trans (clearInflights_good acc.1 e.2)).trans (unsubscribeClient_good s1 e.2)).delClient _
+  · exact h
+
+theorem tickRetained_fc (s : Server) (now : Int) : Fc11G P s (tickRetained s now) := by
+  unfold tickRetained
+  extract_lets +onlyGivenNames s1
+  refine Fc11G.upd (s := s1) ?_ rfl rfl
+  show Fc11G P s (tickRetained.tickRetainedLoop s now)
+  unfold tickRetained.tickRetainedLoop
+  refine foldl_inv (fun (x : Server) => Fc11G P s x) _ _ _ (Fc11G.refl s) ?_
+  intro b e h
+  extract_lets +onlyGivenNames pk expired enforced
+  split
+  · exact h.upd rfl rfl
+  · exact h
+
+theorem tickWills_fc (L : Fc11Laws P) (s : Server) (dt : Int) (hst : ∀ e ∈ s.willDelayed, fc11MsgOK e.2) :
+    Fc11G P s (tickWills s dt).1 := by
+  unfold tickWills
+  refine foldl_inv_mem (fun (acc : Server × List Out) => Fc11G P s acc.1) _ _ _ (Fc11G.refl s) ?_
+  intro acc e he h
+  split
+  · split
+    rename_i s1 o h1
+    have g1 : Fc11G P s s1 := by
+      have := publishToSubscribers_fc L acc.1 e.2 (hst e he)
+      rw [h1] at this
+      exact h.trans this
+    split
+    rename_i s2 o2 h2
+    have g2 : Fc11G P s s2 := by
+      split at h2
+      · rename_i i _
+        extract_lets +onlyGivenNames s3 at h2
+        rw [← (Prod.mk.inj h2).1]
+        have g3 : Fc11G P s s3 := by
+          show Fc11G P s (if e.2.retain = true then retainMsg s1 e.2 else s1)
+          split
+          · exact g1.trans (retainMsg_fc s1 e.2)
+          · exact g1
+        exact g3.mod i _ (L.ext _ _ rfl rfl rfl rfl rfl)
+      · cases h2; exact g1
+    exact g2.upd rfl rfl
+  · exact h
+
+/-! ### the acknowledging handlers, under the local condition that the acting client's update keeps `P` -/
+
+theorem processPuback_fc (s : Server) (i id : Nat)
+    (hg : P (getObj s i) → P (incSend (flDelete (getObj s i) id).1)) : Fc11G P s (processPuback s i id).1 := by
+  unfold processPuback
+  extract_lets +onlyGivenNames c
+  split
+  · exact Fc11G.refl s
+  · extract_lets +onlyGivenNames c'
+    exact ((Fc11G.refl s).set i c' hg).upd rfl rfl
+
+theorem processPubrec_fc (s : Server) (i id rc : Nat)
+    (hg1 : P (getObj s i) → P (flDelete (getObj s i) id).1)
+    (hg2 : P (getObj s i) → P (flSet (decRecv (getObj s i))
+      { type := 6, id := id, qos := 1, reasonCode := 0, created := NOW, expiry := NOW + s.caps.maxMessageExpiry }).1) :
+    Fc11G P s (processPubrec s i id rc).1 := by
+  unfold processPubrec
+  extract_lets +onlyGivenNames c
+  split
+  · rw [ackRes_fst]; exact Fc11G.refl s
+  · split
+    · extract_lets +onlyGivenNames c'
+      exact ((Fc11G.refl s).set i c' hg1).upd rfl rfl
+    · extract_lets +onlyGivenNames ack c' s1
+      have hs1 : Fc11G P s s1 := (Fc11G.refl s).set i c' hg2
+      split <;> exact hs1
+
+theorem processPubrel_fc (s : Server) (i id rc : Nat)
+    (hg1 : P (getObj s i) → P (flDelete (getObj s i) id).1)
+    (hg2 : P (getObj s i) → P (flSet (getObj s i)
+      { type := 7, id := id, reasonCode := 0, created := NOW, expiry := NOW + s.caps.maxMessageExpiry }).1)
+    (hg3 : P (getObj s i) → P (flDelete (incSend (incRecv (flSet (getObj s i)
+      { type := 7, id := id, reasonCode := 0, created := NOW, expiry := NOW + s.caps.maxMessageExpiry }).1)) id).1) :
+    Fc11G P s (processPubrel s i id rc).1 := by
+  unfold processPubrel
+  extract_lets +onlyGivenNames c
+  split
+  · rw [ackRes_fst]; exact Fc11G.refl s
+  · split
+    · extract_lets +onlyGivenNames c'
+      exact ((Fc11G.refl s).set i c' hg1).upd rfl rfl
+    · extract_lets +onlyGivenNames ack c1 s1
+      split
+      · exact (Fc11G.refl s).set i c1 hg2
+      · extract_lets +onlyGivenNames o c2
+        split
+        rename_i c3 ok heq
+        extract_lets +onlyGivenNames s2
+        have hc3 : c3 = (flDelete c2 id).1 := by rw [heq]
+        have hs2 : Fc11G P s s2 := by
+          refine ⟨List.Sublist.refl _, fun k _ x => ?_⟩
+          show P (getObj (setObj (setObj s i c1) i c3) k)
+          by_cases hk : k = i
+          · subst hk
+            refine fc11_get_set (Q := P) (fun _ => ?_) (fun hlt => ?_)
+            · rw [hc3]; exact hg3 x
+            · have : ¬ k < s.objs.length := by rw [← setObj_length s k c1]; exact hlt
+              rw [getObj_setObj_ge s k c1 this]; exact x
+          · rw [getObj_setObj_ne _ i k _ hk, getObj_setObj_ne _ i k _ hk]; exact x
+        split
+        · exact hs2.upd rfl rfl
+        · exact hs2
+
+theorem processPubcomp_fc (s : Server) (i id : Nat)
+    (hg : P (getObj s i) → P (flDelete (incSend (incRecv (getObj s i))) id).1) :
+    Fc11G P s (processPubcomp s i id).1 := by
+  unfold processPubcomp
+  extract_lets +onlyGivenNames c
+  split
+  rename_i c1 ok heq
+  extract_lets +onlyGivenNames s1
+  have hc1 : c1 = (flDelete c id).1 := by rw [heq]
+  have hs1 : Fc11G P s s1 := (Fc11G.refl s).set i c1 (by rw [hc1]; exact hg)
+  split
+  · exact hs1.upd rfl rfl
+  · exact hs1
+
+theorem nextImmediate_fc (L : Fc11Laws P) (s : Server) (i : Nat) (hwf : AllWF s) :
+    Fc11G P s (nextImmediate s i).1 := by
+  unfold nextImmediate
+  extract_lets +onlyGivenNames c
+  split
+  · rename_i hcond
+    split
+    · rename_i m hm
+      extract_lets +onlyGivenNames o
+      split
+      rename_i c1 ok heq
+      extract_lets +onlyGivenNames s1
+      have hmem : m ∈ c.inflight ∧ m.expiry < 0 := by
+        have h1 := List.mem_of_mem_head? hm
+        have h2 := mem_permuteBy _ _ _ h1
+        have h3 := List.mem_filter.mp h2
+        exact ⟨h3.1, by simpa using h3.2⟩
+      have hc1 : c1 = (flDelete c m.id).1 := by rw [heq]
+      have hs0 : Fc11G P s { s with nextSeed := s.nextSeed / 64 } := (Fc11G.refl s).upd rfl rfl
+      have hs1 : Fc11G P s s1 := by
+        refine hs0.set i _ ?_
+        intro x
+        rw [hc1]
+        exact L.next c (hwf i) x m hmem.1 hmem.2 (by simp only [Bool.and_eq_true, decide_eq_true_eq] at hcond; exact hcond.2)
+      split
+      · exact hs1.upd rfl rfl
+      · exact hs1
+    · exact Fc11G.refl s
+  · exact Fc11G.refl s
+
+/-! ### `processPublish` -/
+
+theorem fc11_flGet_flDelete (c : Client) (id : Nat) : flGet (flDelete c id).1 id = none := by
+  unfold flGet flDelete
+  rw [List.find?_eq_none]
+  intro x hx
+  have := (List.mem_filter.mp hx).2
+  simpa using this
+
+theorem fc11_flGet_congr {a b : Client} (h : b.inflight = a.inflight) (id : Nat) : flGet b id = flGet a id := by
+  unfold flGet; rw [h]
+
+theorem fc11_in_range {s : Server} {i : Nat} (h : (getObj s i).recvQuota ≠ 0) : i < s.objs.length := by
+  false_or_by_contra
+  rename_i hn
+  apply h
+  have : s.objs.length ≤ i := Nat.le_of_not_lt hn
+  simp only [getObj, List.getD_eq_getElem?_getD, List.getElem?_eq_none this]
+  rfl
+
+theorem fc11_retainMsg_objs (s : Server) (pk : Msg) : (retainMsg s pk).objs = s.objs := by
+  unfold retainMsg; split <;> rfl
+
+theorem fc11_retainMsg_clients (s : Server) (pk : Msg) : (retainMsg s pk).clients = s.clients := by
+  unfold retainMsg; split <;> rfl
+
+/-- the state differs from `s` in object `i` (now `x`) only -/
+theorem Fc11G.at {s0 s s' : Server} (h : Fc11G P s0 s) (i : Nat) (x : Client) (hc : s'.clients = s.clients)
+    (hobj : s'.objs = s.objs.set i x) (hp : P (getObj s i) → P x) : Fc11G P s0 s' :=
+  (h.set i x hp).upd hobj hc
+
+theorem fc11_getObj_at {s s' : Server} {i : Nat} {x : Client} (hobj : s'.objs = s.objs.set i x)
+    (hlt : i < s.objs.length) : getObj s' i = x := by
+  have : getObj s' i = getObj (setObj s i x) i := getObj_of_objs_eq (s := setObj s i x) hobj i
+  rw [this, getObj_setObj_eq s i x hlt]
+
+theorem processPublish_fc (L : Fc11Laws P) (s : Server) (i : Nat) (qos : Nat) (dup retain : Bool) (id : Nat)
+    (topic payload : Str) (msgExpiry : Nat) (alias : Option Nat)
+    (hdel : P (getObj s i) → P (flDelete (getObj s i) id).1) :
+    Fc11G P s (processPublish s i qos dup retain id topic payload msgExpiry alias).1 := by
+  unfold processPublish
+  extract_lets +onlyGivenNames c
+  have early : ∀ code, Fc11G P s
+      (if (qos == 0) = true then ((s, [], none) : HRes)
+        else if (c.ver != 5) = true then
+          match disconnectClient s i code with
+          | (s, o) => (s, o, some code)
+        else ackRes s i (if (qos == 2) = true then 5 else 4) id code).1 := by
+    intro code
+    split
+    · exact Fc11G.refl s
+    · split
+      · split
+        rename_i s' o heq
+        have := disconnectClient_fc L s i code
+        rw [heq] at this
+        exact this
+      · rw [ackRes_fst]; exact Fc11G.refl s
+  refine Fc11G.ite_res (fun _ => early _) (fun _ => ?_)
+  · refine Fc11G.ite_res (fun _ => ?_) (fun hrq => ?_)
+    · split
+      rename_i s' o heq
+      have := disconnectClient_fc L s i 0x93
+      rw [heq] at this
+      exact this
+    · have hrq' : c.recvQuota ≠ 0 := by
+        intro e; apply hrq; rw [e]; rfl
+      have hlt : i < s.objs.length := fc11_in_range hrq'
+      refine Fc11G.ite_res (fun _ => early _) (fun _ => ?_)
+      · extract_lets +onlyGivenNames e pk pre
+        have hpk : fc11MsgOK pk := by
+          refine ⟨rfl, ?_, (by decide : (0 : Int) ≤ NOW)⟩
+          show (0 : Int) ≤ (if e > 0 then NOW + (e : Int) else 0)
+          have : (0 : Int) ≤ NOW := by decide
+          split <;> omega
+        have hpre : ∀ r, pre = some r → r.1 = s := by
+          intro r h
+          simp only [pre] at h
+          split at h
+          · cases h
+          · split at h
+            · split at h
+              · cases h; exact ackRes_fst s i 5 id 0x91
+              · cases h
+            · cases h
+        generalize pre = pre' at hpre
+        split
+        · rename_i r
+          rw [hpre r rfl]
+          exact Fc11G.refl s
+        · clear hpre
+          split
+          rename_i s1 c1 heq
+          have h1 : s1.clients = s.clients ∧ s1.objs = s.objs.set i c1 ∧ (P c → P c1) ∧
+              c1.recvQuota = c.recvQuota ∧ c1.inline = c.inline ∧ (c.inline = false → flGet c1 id = none) := by
+            split at heq
+            · rename_i hcond
+              cases heq
+              refine ⟨rfl, rfl, hdel, rfl, rfl, fun _ => fc11_flGet_flDelete c id⟩
+            · rename_i hcond
+              cases heq
+              refine ⟨rfl, ?_, fun x => x, rfl, rfl, fun hin => ?_⟩
+              · show s.objs = s.objs.set i (s.objs.getD i {})
+                rw [List.getD_eq_getElem?_getD, List.getElem?_eq_getElem hlt]
+                simp
+              · have : ¬ ((flGet c id).isSome = true) := by
+                  intro h
+                  apply hcond
+                  rw [hin, h]; rfl
+                cases hg : flGet c id with
+                | none => rfl
+                | some v => rw [hg] at this; exact absurd rfl this
+          clear heq
+          obtain ⟨hcl1, hob1, hp1, hrq1, hin1, hfl1⟩ := h1
+          split
+          rename_i c2 pk2 heq
+          have hc2 : (P c1 → P c2) ∧ c2.recvQuota = c1.recvQuota ∧ c2.inflight = c1.inflight ∧ fc11MsgOK pk2 ∧ c2.inline = c1.inline := by
+            split at heq
+            · split at heq
+              · split at heq
+                · cases heq; exact ⟨fun x => x, rfl, rfl, hpk, rfl⟩
+                · split at heq
+                  · split at heq
+                    · cases heq; exact ⟨fun x => x, rfl, rfl, hpk, rfl⟩
+                    · cases heq; exact ⟨L.ext _ _ rfl rfl rfl rfl rfl, rfl, rfl, hpk, rfl⟩
+                  · cases heq; exact ⟨L.ext _ _ rfl rfl rfl rfl rfl, rfl, rfl, hpk, rfl⟩
+              · cases heq; exact ⟨fun x => x, rfl, rfl, hpk, rfl⟩
+            · cases heq; exact ⟨fun x => x, rfl, rfl, hpk, rfl⟩
+          clear heq
+          obtain ⟨hp2, hrq2, hfl2, hpk2, hin2⟩ := hc2
+          extract_lets +onlyGivenNames s2
+          have hlt1 : i < s1.objs.length := by rw [hob1, List.length_set]; exact hlt
+          have hob2 : s2.objs = s.objs.set i c2 := by
+            show s1.objs.set i c2 = _
+            rw [hob1, List.set_set]
+          have hs2 : Fc11G P s s2 := (Fc11G.refl s).at i c2 hcl1 hob2 (fun x => hp2 (hp1 x))
+          have hg2 : getObj s2 i = c2 := fc11_getObj_at hob2 hlt
+          split
+          · split
+            rename_i s' o heq
+            have := disconnectClient_fc L s2 i 0x82
+            rw [heq] at this
+            exact hs2.trans this
+          extract_lets +onlyGivenNames pk3 mode
+          have hpk3 : fc11MsgOK pk3 := by
+            show fc11MsgOK (if _ then _ else pk2)
+            split
+            · exact hpk2
+            · exact hpk2
+          split
+          · exact hs2
+          · split
+            · rw [ackRes_fst]; exact hs2
+            · extract_lets +onlyGivenNames pk4 s3
+              have hpk4 : fc11MsgOK pk4 := by
+                show fc11MsgOK (if _ then _ else pk3)
+                split
+                · exact hpk3
+                · exact hpk3
+              have hob3 : s3.objs = s2.objs := by
+                show (if pk4.retain = true then retainMsg s2 pk4 else s2).objs = _
+                split
+                · exact fc11_retainMsg_objs s2 pk4
+                · rfl
+              have hcl3 : s3.clients = s2.clients := by
+                show (if pk4.retain = true then retainMsg s2 pk4 else s2).clients = _
+                split
+                · exact fc11_retainMsg_clients s2 pk4
+                · rfl
+              have hs3 : Fc11G P s s3 := hs2.upd hob3 hcl3
+              have hg3 : getObj s3 i = c2 := by rw [getObj_of_objs_eq hob3 i]; exact hg2
+              have hlt3 : i < s3.objs.length := by rw [hob3, hob2, List.length_set]; exact hlt
+              split
+              · split
+                rename_i s4 o heq
+                have := publishToSubscribers_fc L s3 pk4 hpk4
+                rw [heq] at this
+                exact hs3.trans this
+              · rename_i hq
+                have hinl : c.inline = false := by
+                  rw [← hin1, ← hin2]
+                  cases hci : c2.inline with
+                  | false => rfl
+                  | true => exact absurd (by rw [hci]; simp) hq
+                extract_lets +onlyGivenNames s4 ackT ackRC ack
+                have hg4 : getObj s4 i = decRecv c2 := by
+                  show getObj (setObj s3 i (decRecv (getObj s3 i))) i = _
+                  rw [getObj_setObj_eq s3 i _ hlt3, hg3]
+                have hack : (ack.type = 4 ∨ ack.type = 5) ∧ 0 ≤ ack.expiry ∧ ack.id = id := by
+                  refine ⟨?_, ?_, rfl⟩
+                  · show (if (pk4.qos == 2) = true then 5 else 4) = 4 ∨ (if (pk4.qos == 2) = true then 5 else 4) = 5
+                    split
+                    · exact Or.inr rfl
+                    · exact Or.inl rfl
+                  · show (0 : Int) ≤ NOW + _
+                    have : (0 : Int) ≤ NOW := by decide
+                    omega
+                have hfr : flGet c2 ack.id = none := by
+                  rw [hack.2.2, fc11_flGet_congr hfl2 id]; exact hfl1 hinl
+                have hrq2' : c2.recvQuota > 0 := by
+                  rw [hrq2, hrq1]; exact Nat.pos_of_ne_zero hrq'
+                have hA := L.ack c2 ack hack.1 hack.2.1 hfr hrq2'
+                split
+                rename_i c5 isNew heq
+                have hc5 : c5 = (flSet (decRecv c2) ack).1 := by rw [← hg4, heq]
+                clear heq
+                extract_lets +onlyGivenNames s5 src s6
+                have hob6 : s6.objs = s3.objs.set i c5 := by
+                  show (if isNew = true then _ else s5).objs = _
+                  have : s5.objs = s3.objs.set i c5 := by
+                    show (s3.objs.set i _).set i c5 = _
+                    rw [List.set_set]
+                  split
+                  · exact this
+                  · exact this
+                have hcl6 : s6.clients = s3.clients := by
+                  show (if isNew = true then _ else s5).clients = _
+                  split <;> rfl
+                have hs6 : Fc11G P s s6 :=
+                  hs3.at i c5 hcl6 hob6 (fun x => by rw [hc5]; rw [hg3] at x; exact (hA x).1)
+                split
+                · exact hs6
+                · extract_lets +onlyGivenNames o1 s7
+                  have hs7 : Fc11G P s s7 := by
+                    show Fc11G P s (if (pk4.qos == 1) = true then _ else s6)
+                    split
+                    · rename_i hq1
+                      have ht4 : ack.type = 4 := by
+                        show (if (pk4.qos == 2) = true then 5 else 4) = 4
+                        have : ¬ (pk4.qos == 2) = true := by
+                          have := beq_iff_eq.mp hq1
+                          rw [this]; decide
+                        rw [if_neg this]
+                      have hg6 : getObj s6 i = c5 := fc11_getObj_at hob6 hlt3
+                      split
+                      rename_i c6 ok heq
+                      have hc6 : c6 = (flDelete c5 id).1 := by rw [← hg6, heq]
+                      extract_lets +onlyGivenNames s8
+                      have hs8 : Fc11G P s s8 := by
+                        refine hs3.at i (incRecv c6) hcl6 ?_ ?_
+                        · show s6.objs.set i _ = _
+                          rw [hob6, List.set_set]
+                        · intro x
+                          rw [hg3] at x
+                          rw [hc6, hc5, ← hack.2.2]
+                          exact (hA x).2 ht4
+                      split
+                      · exact hs8.upd rfl rfl
+                      · exact hs8
+                    · exact hs6
+                  split
+                  rename_i s9 o2 heq
+                  have := publishToSubscribers_fc L s7 pk4 hpk4
+                  rw [heq] at this
+                  exact hs7.trans this
 
 end Mochi.Broker
